@@ -42,13 +42,16 @@ import (
 // justification (contracts in the parser and operators packages)
 //@ directive[C03] census maprange parser.Parser.parseLine parser.expandDefinitions parser.buildIncludeExceptString parser.replaceSuffixes operators.Operator.complete
 //@ directive[C03] census goroutine
+// C02: stdout of generate is the regex and nothing else: os.Stdout is handed to nobody (a logger,
+// a writer) except by the two commands whose output it is
+//@ directive[C02] census stdoutref cmd.createCompletionCommand cmd.createGenerateCommand
 
 // ---- C17: every scan loop is in a function whose contract carries the scanner protocol
 //@ directive[C17] census scanloop parser.Parser.Parse operators.Operator.assemble cmd.processFile util.TestRenumberer.processYaml chore.updateRules parser.replaceSuffixes parser.removeExclusions parser.buildinclusionLineMap
 
 // ---- C08: nothing left in package-level state by one file can influence the next
-//@ directive[C08] write-before-read cmd.performUpdate
-//@ directive[C08] write-before-read cmd.performCompare
+//@ directive[C08,C11,C12] write-before-read cmd.performUpdate
+//@ directive[C08,C12] write-before-read cmd.performCompare
 //@ directive[C08] write-before-read cmd.processAll
 
 func forall(lo, hi int, p func(int) bool) bool {
@@ -590,8 +593,10 @@ func SpecRoot(start string) string {
 // runAssemble must establish Run's precondition (empty stash, empty operator): it can only
 // do so by creating both itself.
 //@ contract runAssemble
-//@   tags C08 C16
+//@   tags C08 C16 C12 C11
 //@   results r
+//@   checks[C12,C11] the-assembled-regex-is-returned-as-it-is: called(Run) && r == resultOf(Run, 0)
+//@   checks[C18,C04] the-resolved-root-is-used: called(New) && argOf(New, 0) == string(rootValues.workingDirectory) && argOf(New, 1) == string(rootValues.configurationFileName)
 
 // ---- C17: no reader that may return part of its input without an error is used by the
 // line-oriented commands (the scanners are covered by the scan-complete obligations)
@@ -681,6 +686,7 @@ func OpaqueGlob(pattern string) []string { m, _ := filepath.Glob(pattern); retur
 //@   checks[C18] file-bytes-reach-the-assembler-unchanged: implies(called(Run) && called(ReadFile), argOf(Run, 0) == lastRead())
 //@   checks[C18] stdin-bytes-reach-the-assembler-unchanged: implies(called(Run) && called(ReadAll), argOf(Run, 0) == resultOf(ReadAll, 0))
 //@   checks[C18] one-source: implies(called(Run), called(ReadFile) != called(ReadAll))
+//@   checks[C18] the-resolved-root-is-used: called(New) && argOf(New, 0) == string(rootValues.workingDirectory) && argOf(New, 1) == string(rootValues.configurationFileName)
 //@   checks[C02,C18] the-result-is-printed-verbatim: implies(called(Run) && resultOf(Run, 1) == nil, called(WriteString) && argOf(WriteString, 0) == resultOf(Run, 0))
 
 // ---- C16 / C09: the format command returns what processFile / processAll report (cobra turns
@@ -691,6 +697,7 @@ func OpaqueGlob(pattern string) []string { m, _ := filepath.Glob(pattern); retur
 //@   results r
 //@   modifies fsWrites
 //@   checks[C16,C09] single-file-verdict-is-returned: implies(called(processFile), r == resultOf(processFile, 0))
+//@   checks[C18] the-resolved-root-is-used: called(New) && argOf(New, 0) == string(rootValues.workingDirectory) && argOf(New, 1) == string(rootValues.configurationFileName)
 //@   checks[C18] only-a-missing-extension-is-completed: implies(called(parseRuleId), argOf(parseRuleId, 0) == iteS(resultOf(Ext, 0) == "", args[0]+".ra", args[0]))
 //@   checks[C15,C09] check-mode-is-handed-on: implies(called(processFile), argOf(processFile, 2) == checkOnly) && implies(called(processAll), argOf(processAll, 1) == checkOnly)
 //@   checks[C16,C09] all-files-verdict-is-returned: implies(called(processAll), r == resultOf(processAll, 0))
@@ -723,9 +730,10 @@ func OpaqueGlob(pattern string) []string { m, _ := filepath.Glob(pattern); retur
 //@   checks[C11,C18] single-rule-uses-the-parsed-values: implies(!processAll, called(processRule) && argOf(processRule, 0) == ruleValues.id && argOf(processRule, 1) == ruleValues.chainOffset)
 
 //@ contract createCompareCommand#2
-//@   tags C12 C16
+//@   tags C12 C16 C18
 //@   safety none
 //@   results r
+//@   checks[C18] the-resolved-root-is-used: called(New) && argOf(New, 0) == string(rootValues.workingDirectory) && argOf(New, 1) == string(rootValues.configurationFileName)
 //@   checks[C12,C16] verdict-is-returned: implies(called(performCompare), r == resultOf(performCompare, 0))
 //@   checks[C12,C16] compare-was-run: implies(r == nil, called(performCompare))
 
@@ -738,10 +746,11 @@ func OpaqueGlob(pattern string) []string { m, _ := filepath.Glob(pattern); retur
 //@   checks[C16,C13] the-single-match-is-used: implies(err == nil, len(resultOf(Glob, 0)) == 1 && p == resultOf(Glob, 0)[0])
 
 //@ contract createRenumberTestsCommand#1
-//@   tags C13 C16 C15
+//@   tags C13 C16 C15 C18
 //@   safety none
 //@   results r
 //@   modifies fsWrites
+//@   checks[C18,C15] the-resolved-root-is-used: implies(called(RenumberTests) || called(parseFilePath), called(New) && argOf(New, 0) == string(rootValues.workingDirectory) && argOf(New, 1) == string(rootValues.configurationFileName))
 //@   checks[C13,C16] all-files-verdict-is-returned: implies(called(RenumberTests), r == resultOf(RenumberTests, 0))
 //@   checks[C13,C15] check-mode-is-handed-on: implies(called(RenumberTests), argOf(RenumberTests, 0) == checkOnly && argOf(RenumberTests, 1) == (rootValues.output == gitHub)) && implies(called(RenumberTest), argOf(RenumberTest, 1) == checkOnly)
 //@   checks[C13,C16] single-file-verdict-is-returned: implies(called(RenumberTest), r == resultOf(RenumberTest, 0))
@@ -774,10 +783,12 @@ func OpaqueGlob(pattern string) []string { m, _ := filepath.Glob(pattern); retur
 // only returns normally after a successful command (a panic ends the process with status 2 in
 // the Go runtime; nothing may swallow it)
 //@ contract Execute
-//@   tags C16
+//@   tags C16 C20
 //@   safety none
 //@   checks[C16] returns-only-after-success: called(Execute) && resultOf(Execute, 0) == nil
+//@   checks[C20] the-build-version-is-the-running-version: rootCmd.Version == version
 //@ directive[C16] no-effect cmd.Execute recover
+//@ directive[C16] no-effect main.main recover
 
 // ---- C18: the nearest-root search is applied to the -d argument only; without -d the working
 // directory itself is the root
@@ -818,8 +829,9 @@ func OpaqueIsSemver(v string) bool { _, err := semver.NewVersion(v); return err 
 //@   checks[C14] the-version-is-used-as-given: copyrightVariables.Version == old(copyrightVariables.Version) && copyrightVariables.Year == old(copyrightVariables.Year)
 
 //@ contract createChoreUpdateCopyrightCommand#1
-//@   tags C14
+//@   tags C14 C18
 //@   modifies fsWrites
+//@   checks[C18] the-resolved-root-is-used: called(New) && argOf(New, 0) == string(rootValues.workingDirectory) && argOf(New, 1) == string(rootValues.configurationFileName)
 //@   checks[C14] the-validated-values-are-used: called(UpdateCopyright) && argOf(UpdateCopyright, 1) == copyrightVariables.Version && argOf(UpdateCopyright, 2) == copyrightVariables.Year
 
 // ---- C20: the running version handed to the updater must be comparable -------------------------
@@ -829,3 +841,26 @@ func OpaqueIsSemver(v string) bool { _, err := semver.NewVersion(v); return err 
 //@   results r
 //@   modifies fsWrites
 //@   checks[C20] the-running-version-is-handed-over: implies(called(Updater) && rootCmd.Version != "", argOf(Updater, 0) == rootCmd.Version)
+//@   checks[C20,C16] a-failed-update-is-reported: implies(called(Updater) && resultOf(Updater, 1) != nil, r != nil)
+
+// ---- C18 / C04: every command builds its context from the resolved root and the configured file
+// name as they are stored (the flag getters are executed in place)
+//@ contract workingDirectory.String
+//@   tags C18
+//@   opt inline yes
+
+//@ contract configurationFileName.String
+//@   tags C18 C04
+//@   opt inline yes
+
+//@ contract createUpdateCommand#2
+//@   tags C18
+//@   safety none
+//@   modifies fsWrites
+//@   checks[C18] the-resolved-root-is-used: called(New) && argOf(New, 0) == string(rootValues.workingDirectory) && argOf(New, 1) == string(rootValues.configurationFileName)
+
+// ---- C18: without -d the root is the working directory itself
+//@ contract init@root
+//@   tags C18
+//@   safety none
+//@   checks[C18] the-working-directory-is-the-default-root: implies(called(Getwd) && resultOf(Getwd, 1) == nil, string(rootValues.workingDirectory) == resultOf(Getwd, 0))
